@@ -24,7 +24,7 @@ From Coq Require Import List NArith Bool Arith Permutation SetoidList Relations.
 From SK Require Import lib.LGraph lib.Mono model.C06_Model lib.C06_Spec
   proof.C06_All proof.C06_Comp proof.C06_Comps proof.C06_CompSem proof.C06_CompNoDup proof.C06_Prefilter proof.C06_Table proof.C06_Api proof.C06_Main
   model.C06_Attrs lib.C06_SelSpec proof.C06_Attrs proof.C06_AttrsSpec proof.C06_AttrsEx
-  model.C06_Trace proof.C06_Trace proof.C06_TraceEx proof.C06_AttrsComp model.C06_Hist proof.C06_Hist lib.C06_TraceSpec proof.C06_TracePer proof.C06_HistEdits proof.C06_Iso proof.C06_IsoCount proof.C06_AttrsUnused lib.C06_HistSpec proof.C06_HistFrame proof.C06_TraceCover proof.C06_HistFrameE.
+  model.C06_Trace proof.C06_Trace proof.C06_TraceEx proof.C06_AttrsComp model.C06_Hist proof.C06_Hist lib.C06_TraceSpec proof.C06_TracePer proof.C06_HistEdits proof.C06_Iso proof.C06_IsoCount proof.C06_AttrsUnused lib.C06_HistSpec proof.C06_HistFrame proof.C06_TraceCover proof.C06_HistFrameE proof.C06_Degenerate proof.C06_AttrsHcount proof.C06_Refuted.
 Import ListNotations.
 
 (** ** 0. What the specification predicates say, written out *)
@@ -786,3 +786,71 @@ Theorem C06_hist_edge_edit_never_seen : forall (k a b v : N) (host_side : bool) 
   run_hist H P (HEdit host_side (ESetEdgeAttr a b k v) :: steps) = run_hist H P steps.
 Proof. exact hist_edge_edit_never_seen. Qed.
 Print Assumptions C06_hist_edge_edit_never_seen.
+
+(** ** 18. Degenerate inputs.  The empty pattern has exactly one embedding - the empty map - into every host
+    (empty or not), for every strategy, cap, strict flag and pre-filter setting, as soon as the threshold is
+    at least 1 (threshold 0 is a real threshold: the one-element result is emptied); a non-empty pattern has
+    no embedding into the empty host. *)
+Theorem C06_empty_pattern : forall (strat maxr T : N) (strict pref : bool) (H : graph),
+  (1 <= T)%N ->
+  find (monos_on H (LG [] [])) (Cfg strat maxr T strict pref) H (LG [] []) = [[]].
+Proof. exact empty_pattern. Qed.
+Print Assumptions C06_empty_pattern.
+
+Theorem C06_empty_host : forall (enum : list N -> list N -> list mapping) (c : cfg) (P : graph),
+  gwf P -> node_ids P <> [] -> enum [] (node_ids P) = [] ->
+  find enum c (LG [] []) P = [].
+Proof. exact empty_host. Qed.
+Print Assumptions C06_empty_host.
+
+(** ** 19. The hydrogen-count clause is a lower bound: a host that differs only by LARGER hcounts (same node
+    ids, same values under every selected name, same bonds) keeps every match of the exhaustive search *)
+Theorem C06_sel_hcount_raise : forall (na ea : list N) (T T' : N) (strict strict' : bool) (H H' P : rgraph),
+  (NoDup (node_ids H) /\ forall a b x, In (a, b, x) (gedges H) -> In a (node_ids H) /\ In b (node_ids H) /\ a <> b) ->
+  (NoDup (node_ids H') /\ forall a b x, In (a, b, x) (gedges H') -> In a (node_ids H') /\ In b (node_ids H') /\ a <> b) ->
+  (NoDup (node_ids P) /\ forall a b x, In (a, b, x) (gedges P) -> In a (node_ids P) /\ In b (node_ids P) /\ a <> b) ->
+  node_ids H' = node_ids H ->
+  (forall u k, In k na -> aget k (fst (rlab H' u)) = aget k (fst (rlab H u))) ->
+  (forall u, (hc (rlab H u) <= hc (rlab H' u))%N) ->
+  (forall u v, LGraph.adj H' u v = LGraph.adj H u v) ->
+  (lenN (monos_sel na ea H P (node_ids H) (node_ids P)) <= T)%N ->
+  (lenN (monos_sel na ea H' P (node_ids H') (node_ids P)) <= T')%N ->
+  forall m, In m (find_sel (monos_sel na ea H P) (Cfg 0 0 T strict false) na ea H P) ->
+  exists m', In m' (find_sel (monos_sel na ea H' P) (Cfg 0 0 T' strict' false) na ea H' P) /\ Permutation m m'.
+Proof. exact sel_hcount_raise. Qed.
+Print Assumptions C06_sel_hcount_raise.
+
+(** ** 20. Where the code, kept as it is, violates the property text read literally (both are documented
+    behaviour of the library; known findings [C06:comp-strict-cc-guard] and [C06:per-component-threshold-guard]
+    in known_findings.d/C06.json, witnesses replayed on the implementation on every run from
+    corpus/regress/C06/known_deviations.json). *)
+
+(** clause "the component-aware strategy returns exactly those that send different pattern components into
+    different host components" is FALSE under the default [strict_cc_count = True] when the host has more
+    components than a non-empty pattern (first case of C06_comp_spec): a separating monomorphism exists, the
+    default call returns [], [strict_cc_count = False] returns it.  (The clause holds for [strict_cc_count = False]
+    and whenever the host does not have more components: cases two and three of C06_comp_spec.) *)
+Theorem C06_comp_strict_refuted :
+  exists (H P : graph) (m : mapping),
+    gwf H /\ gwf P /\ is_mono H P m /\ separating H P m /\
+    length (comps P) < length (comps H) /\
+    find (monos_on H P) (Cfg 1 0 5000 true false) H P = [] /\
+    In m (find (monos_on H P) (Cfg 1 0 5000 false false) H P).
+Proof. exact comp_strict_refuted. Qed.
+Print Assumptions C06_comp_strict_refuted.
+
+(** clause "result limits only truncate the list or, past the threshold, empty it" is FALSE for the
+    component-aware and the fallback strategy when one pattern component alone has more than [threshold]
+    embeddings (second alternative of C06_limits): the unlimited result has 3 mappings, threshold 3 is not
+    exceeded, [] is returned.  (The clause holds without exception for the exhaustive strategy:
+    C06_limits_all.) *)
+Theorem C06_limits_comp_refuted :
+  exists (H P : graph) (thr : N),
+    let U := find (monos_on H P) (Cfg 1 0 5000 true false) H P in
+    lenN U = 3%N /\ thr = 3%N /\
+    limit 0 thr U = U /\
+    find (monos_on H P) (Cfg 1 0 thr true false) H P = [] /\
+    find (monos_on H P) (Cfg 2 0 thr true false) H P = [] /\
+    find (monos_on H P) (Cfg 1 0 thr true false) H P <> limit 0 thr U.
+Proof. exact limits_comp_refuted. Qed.
+Print Assumptions C06_limits_comp_refuted.
